@@ -26,6 +26,11 @@ def cases(rng, tier):
     m = 120 if tier == "quick" else 2500
     for i in range(m):
         yield rvgen.sim_case(rng, "five" if i % 2 else "single", hazard=True, opts={"aligned": True}, trace=0, run=800, dprob=1.0, iprob=0.2, suite="sim-dcache")
+    for prog, regs in rvgen.store_hit_programs():          # every store width as hit and miss under caches with a penalty
+        for mode in ("single", "five"):
+            for d in ("wb,plru,1,1,2,3", "wt,lru,1,0,1,2", "wt,plru,0,1,2,5"):
+                lines = rvgen.header(mode, True, d, "-", prog, regs, []) + ["sim.snap"] + ["sim.step", "sim.snap"] * 6 + ["sim.run 200", "sim.snap"]
+                yield Case("sim-dcache", lines, None, {"mode": mode, "hazard": True, "prog": prog, "regs": regs, "pokes": [], "d": d, "i": "-"})
     for prog, regs in rvgen.long_programs(rng, tier):          # sets filled and refilled many times
         for mode in ("single", "five"):
             yield rvgen.long_case(prog, regs, mode, True, dspec=rvgen.penalty_cache_spec(rng, "d"), suite="sim-dcache")
